@@ -176,6 +176,18 @@ TQueueSize ==
        /\ Has("errno") => (errno'[m] = t.errno /\ gerrno' = t.gerrno)
        /\ Has("abi") => t.abi = 0
 
+\* a failing manager-level call (NULL burst array) issued while a job is being filled in: error code IMB_ERR_NULL_BURST,
+\* nothing handed out or back, ring untouched; the submit that follows must reset the code (TSubmitJob / Observed)
+TBadCall ==
+    /\ IsEvent("BadCall")
+    /\ LET t == Tr[l] m == M(t) IN
+       /\ t.done = <<>> /\ t.r = 0
+       /\ BadCall(m, 2048)
+       /\ UNCHANGED <<suiteOf, plan, cfail>>
+       /\ earliest'[m] = t.earliest /\ next'[m] = t.next
+       /\ Has("errno") => (errno'[m] = t.errno /\ gerrno' = t.gerrno)
+       /\ Has("abi") => t.abi = 0
+
 TGetNextBurst ==
     /\ IsEvent("GetNextBurst")
     /\ LET t == Tr[l] m == M(t) IN
@@ -262,7 +274,7 @@ TFreshTwin == IsEvent("FreshTwin") /\ UNCHANGED <<vars, suiteOf, plan, cfail>>
 TraceNext ==
     \/ TReinit \/ TReattach \/ TForkReattach \/ TFreshTwin
     \/ TReset \/ TGetNextJob \/ TSubmitJob \/ TFlushJob \/ TGetCompletedJob \/ TQueueSize
-    \/ TGetNextBurst \/ TSubmitBurst \/ TFlushBurst \/ TEnd
+    \/ TGetNextBurst \/ TSubmitBurst \/ TFlushBurst \/ TBadCall \/ TEnd
 
 TraceSpec == TraceInit /\ [][TraceNext]_tvars
 
